@@ -19,7 +19,9 @@ import common
 PROP = "C15"
 HEADER = "From Coq Require Import ZArith List.\nImport ListNotations.\nFrom IBL.C15 Require Import Run."
 TRUSTED = [
-    "Coq 8.16.1 kernel + vm_compute (no native_compute); all C15 theorems: Closed under the global context",
+    "Coq 8.16.1 kernel + vm_compute (no native_compute); the 14 theorems of Props.v: Closed under the global context; the 2 "
+    "real-number theorems of PropsReal.v (coq-interval): standard-library axioms of the classical reals and of the "
+    "primitive 63-bit integers (listed per theorem in the evidence)",
     "hand-written model coq/C15/Model.v of interpolate_bad_channels, of the recommendation block of "
     "detect_bad_channels and of the batch mode of detect_bad_channels_cbin, tied to /repo/src by this run's "
     "correspondence; the theorems are about exact arithmetic in an arbitrary ordered field (reals; rationals, "
@@ -45,6 +47,16 @@ R2 = 5201                                              # coq/C15/Model.v R2: flo
 R_KEEP = KRIG * (-math.log(0.005)) ** (1 / P_EXP)       # distance at which the raw weight crosses 0.005 (72.13 um)
 CONSTS = {"c_0005": (0.005, 5764607523034235, 60), "c_002": (0.02, 5764607523034235, 58),
           "c_14": (1.4, 3152519739159347, 51), "c_m075": (-0.75, -3, 2)}
+
+
+# axioms the two theorems of coq/C15/PropsReal.v may depend on: the standard library's classical reals and the
+# kernel's primitive 63-bit integers with their specification (coq-interval computes with them)
+REAL_AXIOMS = sorted(common.STDLIB_AXIOMS) + ["PrimInt63." + n for n in (
+    "add addc addcarryc addmuldiv compare div diveucl diveucl_21 eqb head0 int land leb lor lsl lsr ltb lxor mod "
+    "mul mulc sub subc subcarryc tail0").split()] + ["Uint63." + n for n in (
+    "add_spec addc_def_spec addcarryc_def_spec addmuldiv_def_spec compare_def_spec div_spec diveucl_21_spec "
+    "diveucl_def_spec eqb_correct eqb_refl head0_spec land_spec leb_spec lor_spec lsl_spec lsr_spec ltb_spec "
+    "lxor_spec mod_spec mul_spec mulc_spec of_to_Z sub_spec subc_def_spec subcarryc_def_spec tail0_spec").split()]
 
 
 def V():
@@ -93,6 +105,77 @@ def headers():
     return {k: (np.asarray(h["x"]), np.asarray(h["y"])) for k, h in hs.items()}
 
 
+SHANK_PITCH = 250          # um between the shanks of an NP2.4 probe (coq/C15/Geo.v SHANK_PITCH)
+
+
+def far_sources_4shank(labels, srcs):
+    """'nearby' on the physical 4-shank probe: (i, shank_i, j, shank_j, distance) of a source beyond the range."""
+    import neuropixel
+    h = neuropixel.trace_header(version=2, nshank=4)
+    px = np.asarray(h["x"], dtype=float) + SHANK_PITCH * np.asarray(h["shank"], dtype=float)
+    py = np.asarray(h["y"], dtype=float)
+    bads = [i for i, l in enumerate(labels) if l in (1, 2)]
+    for i, sl in zip(bads, srcs):
+        for j in sl:
+            dd = math.hypot(px[j] - px[i], py[j] - py[i])
+            if dd > R_KEEP * (1 + 1e-9):
+                return (i, int(h["shank"][i]), j, int(h["shank"][j]), int(round(dd)))
+    return None
+
+
+def destripe_4shank(ctx, st):
+    """The public path: destripe(x, fs, h=<4-shank header>, channel_labels=...) hands h['x'], h['y'] to
+    interpolate_bad_channels; the row it computes for a dead channel of shank 0 must stay within the range of
+    the physically near usable channels."""
+    import neuropixel
+    voltage = V()
+    h = neuropixel.trace_header(version=2, nshank=4)
+    nc, ns, fs = 384, 1024, 30000
+    t = np.arange(ns) / fs
+    x = np.zeros((nc, ns))
+    for k in (1, 2, 3):                      # shanks 1..3 carry a 1 kHz tone, shank 0 is flat
+        x[np.asarray(h["shank"]) == k] = 100e-6 * k * np.sin(2 * np.pi * 1000 * t)
+    lab = np.zeros(nc)
+    lab[0] = 1
+    seen = []
+    orig = voltage.interpolate_bad_channels
+
+    def spy(data, channel_labels=None, x=None, y=None, **kw):
+        before = np.array(data)
+        out = orig(data, channel_labels, x, y, **kw)
+        seen.append((before, np.array(out), np.array(x), np.array(y)))
+        return out
+    voltage.interpolate_bad_channels = spy
+    d = {"op": "destripe-4shank", "dead_channel": 0}
+    try:
+        with warnings.catch_warnings():
+            warnings.simplefilter("ignore")
+            voltage.destripe(x.copy(), fs, h=h, neuropixel_version=2, channel_labels=lab, k_filter=False)
+    except Exception as e:
+        ctx.disagree("destripe raised %r on the 4-shank header" % (e,), d, {"op": "interp"})
+        return
+    finally:
+        voltage.interpolate_bad_channels = orig
+    st.evals += 1
+    st.count("destripe_4shank_path")
+    if len(seen) != 1 or bad_array(seen[0][1], (nc, ns)) or bad_array(seen[0][0], (nc, ns)):
+        ctx.disagree("destripe did not call interpolate_bad_channels once on the (nc, ns) array", d, {"op": "interp"})
+        return
+    before, after, hx, hy = seen[0]
+    px = np.asarray(h["x"], dtype=float) + SHANK_PITCH * np.asarray(h["shank"], dtype=float)
+    py = np.asarray(h["y"], dtype=float)
+    near = np.hypot(px - px[0], py - py[0]) <= R_KEEP
+    near[0] = False
+    lo, hi = before[near].min(axis=0), before[near].max(axis=0)
+    tol = 1e-9 * max(1e-12, float(np.abs(before).max()))
+    ctx.measurements["destripe_4shank_dead_channel_rms_uV_while_its_own_shank_is_flat"] = float(
+        1e6 * np.sqrt(np.mean(after[0] ** 2)))
+    if np.any(after[0] < lo - tol) or np.any(after[0] > hi + tol):
+        ctx.fail("destripe on the 4-shank header: dead channel 0 (shank 0) leaves the range of the usable channels "
+                 "within the kriging range on its own shank - it is filled from the other shanks", d,
+                 {"op": "interp", "kind": "nearby", "geom": "NP2_4shank"})
+
+
 def small_geometries(rng, hs, nc):
     g = []
     for name, (x, y) in hs.items():
@@ -138,6 +221,65 @@ def label_vectors_384(rng, nc=384):
 # ---------------------------------------------------------------------------
 # interpolate: implementation run, oracle, encoding
 # ---------------------------------------------------------------------------
+def explain(e, name):
+    return str(e) if isinstance(e, BadReturn) else "%s raised %r" % (name, e)
+
+
+class BadReturn(Exception):
+    """The implementation returned something that is not what the property's observation point promises."""
+
+
+def bad_array(a, shape, dtype=None, kinds=None):
+    """None if `a` is an ndarray of this shape (and dtype / dtype kind); else a description."""
+    if not isinstance(a, np.ndarray):
+        return "%s instead of an array" % type(a).__name__
+    if tuple(a.shape) != tuple(shape):
+        return "an array of shape %s instead of %s" % (tuple(a.shape), tuple(shape))
+    if dtype is not None and a.dtype != np.dtype(dtype):
+        return "an array of dtype %s instead of %s" % (a.dtype, np.dtype(dtype))
+    if kinds is not None and a.dtype.kind not in kinds:
+        return "an array of dtype %s" % a.dtype
+    return None
+
+
+def checked_detect_return(ret, nc):
+    """(labels, features) as the property's observation point promises, else BadReturn."""
+    if not (isinstance(ret, tuple) and len(ret) == 2):
+        raise BadReturn("detect_bad_channels returned %s instead of (labels, features)" % type(ret).__name__)
+    lab, feats = ret
+    why = bad_array(lab, (nc,), kinds="fiu")
+    if why:
+        raise BadReturn("detect_bad_channels returned labels: " + why)
+    if not isinstance(feats, dict):
+        raise BadReturn("detect_bad_channels returned features: %s instead of a dict" % type(feats).__name__)
+    for key in ("xcor_hf", "xcor_lf", "psd_hf"):
+        if key not in feats:
+            raise BadReturn("detect_bad_channels features lack %r" % key)
+        why = bad_array(feats[key], (nc,), kinds="f")
+        if why:
+            raise BadReturn("detect_bad_channels feature %s: %s" % (key, why))
+    return lab, feats
+
+
+def call_detect(x, fs, fn=None, **kw):
+    """detect_bad_channels on x (nc, ns); the input must come back unmodified."""
+    fn = fn or V().detect_bad_channels
+    x = np.asarray(x)
+    keep = x.copy()
+    ret = fn(x, fs, **kw)
+    if not np.array_equal(x, keep, equal_nan=True):
+        raise BadReturn("detect_bad_channels modified its input array")
+    return checked_detect_return(ret, x.shape[0])
+
+
+def call_cbin(arg, nc, **kw):
+    out = V().detect_bad_channels_cbin(arg, **kw)
+    why = bad_array(out, (nc,), kinds="fiu")
+    if why:
+        raise BadReturn("detect_bad_channels_cbin returned " + why)
+    return out
+
+
 def impl_interp(x, y, labels, data, dtype, label_float, layout="C"):
     """layout: C-contiguous array, Fortran-ordered array, or a strided view into a wider array (the columns
     in between must stay untouched); coordinates as given or as float arrays."""
@@ -157,9 +299,12 @@ def impl_interp(x, y, labels, data, dtype, label_float, layout="C"):
     with warnings.catch_warnings():
         warnings.simplefilter("ignore")        # 0/0 when a channel has no neighbour left
         out = V().interpolate_bad_channels(arg, channel_labels=lab, x=x, y=y)
+    why = bad_array(out, d.shape, d.dtype)
+    if why:
+        raise BadReturn("interpolate_bad_channels returned " + why)
     out = np.array(out)
     if wide is not None and not (np.all(wide[:, 0::2] == 77) and np.array_equal(wide[:, 1::2], out, equal_nan=True)):
-        raise AssertionError("strided view: columns outside the view were written or the view was not updated")
+        raise BadReturn("strided view: columns outside the view were written or the view was not updated")
     return out
 
 
@@ -209,6 +354,9 @@ def oracle_weights(x, y, labels):
     with warnings.catch_warnings():
         warnings.simplefilter("ignore")
         out = V().interpolate_bad_channels(np.eye(nc), channel_labels=lab.astype(float), x=x, y=y)
+    why = bad_array(out, (nc, nc), np.float64)
+    if why:
+        raise BadReturn("interpolate_bad_channels returned " + why)
     for i in np.flatnonzero(isbad):
         w = out[i]
         dist = np.hypot(np.asarray(x, dtype=float) - float(x[i]), np.asarray(y, dtype=float) - float(y[i]))
@@ -335,7 +483,7 @@ def part_interp(ctx, st, model):
         geoms = small_geometries(rng, hs, nc)
         if nc <= nmax_exh:
             if not ctx.thorough() and nc == 5:
-                geoms = geoms[:3] + rng.sample(geoms[3:], 2)
+                geoms = geoms[:1] + rng.sample(geoms[1:], 2)
             if ctx.thorough() and nc == 7:
                 geoms = geoms[:2] + rng.sample(geoms[2:], 2)
             for (name, x, y) in geoms:
@@ -344,7 +492,7 @@ def part_interp(ctx, st, model):
             st.count("geometries_with_exhaustive_label_space_nc%d" % nc, len(geoms))
         else:
             for (name, x, y) in geoms:
-                for _ in range(120):
+                for _ in range(120 if ctx.thorough() else 60):
                     add(name, x, y, [rng.choice([0, 0, 1, 2, 3]) for _ in range(nc)])
     # (b) 384-channel probes, the four trace headers
     n384 = 40 if ctx.thorough() else 6
@@ -375,7 +523,8 @@ def part_interp(ctx, st, model):
         try:
             out = impl_interp(x, y, labels, data, c["dtype"], c["label_float"], c["layout"])
         except Exception as e:
-            ctx.fail("interpolate_bad_channels raised %r" % (e,), d, {"op": "interp", "kind": "exception"})
+            ctx.fail(str(e) if isinstance(e, BadReturn) else "interpolate_bad_channels raised %r" % (e,), d,
+                     {"op": "interp", "kind": "exception"})
             continue
         for b in oracle_interp(x, y, labels, data, out, c["dtype"]):
             ctx.fail(b, d, {"op": "interp", "kind": b.split()[0]})
@@ -386,6 +535,12 @@ def part_interp(ctx, st, model):
                 wbad, srcs = oracle_weights(x, y, labels)
                 for b in wbad:
                     ctx.fail(b, d, {"op": "interp", "kind": "weights"})
+                if c["geom"] == "NP2_4shank":
+                    far = far_sources_4shank(labels, srcs)
+                    if far:
+                        ctx.fail("4-shank header: channel %d (shank %d) is repaired from channel %d on shank %d, "
+                                 "%d um away (the header's x is local to each shank)" % far, d,
+                                 {"op": "interp", "kind": "nearby", "geom": "NP2_4shank"})
                 # geometry model (op 5): the channels each dead/noisy channel is repaired from, read off the
                 # implementation with identity data, against {not dead/noisy, squared distance <= 5201}
                 if srcs and all(float(v) == int(v) for v in y):
@@ -442,6 +597,7 @@ def part_interp(ctx, st, model):
                  "bad_channels": [i for i, l in enumerate(d["labels"]) if l in (1, 2)][:20], "dtype": d["dtype"]}
         st.samples.append(d)
 
+    destripe_4shank(ctx, st)
     # (c) implementation-only stream: non-finite values must not leak from channels that are not sources
     for name, (x, y) in hs.items():
         for _ in range(6 if ctx.thorough() else 2):
@@ -465,6 +621,10 @@ def part_interp(ctx, st, model):
                     warnings.simplefilter("ignore")
                     o0 = V().interpolate_bad_channels(d0.copy(), np.asarray(labels, dtype=float), x, y)
                     o1 = V().interpolate_bad_channels(d1.copy(), np.asarray(labels, dtype=float), x, y)
+                for o in (o0, o1):
+                    why = bad_array(o, d0.shape, d0.dtype)
+                    if why:
+                        raise BadReturn("interpolate_bad_channels returned " + why)
             except Exception as e:
                 ctx.fail("interpolate_bad_channels raised %r" % (e,), dd, {"op": "interp", "kind": "exception"})
                 continue
@@ -600,7 +760,7 @@ def part_rule(ctx, st, model):
         try:
             with warnings.catch_warnings():
                 warnings.simplefilter("ignore")
-                lab0, f0 = V().detect_bad_channels(x, fs)
+                lab0, f0 = call_detect(x, fs)
                 # thresholds placed exactly on feature values of this recording (ties of the comparisons)
                 hf = np.asarray(f0["xcor_hf"], dtype=float)
                 psd = np.asarray(f0["psd_hf"], dtype=float)
@@ -611,10 +771,10 @@ def part_rule(ctx, st, model):
                     for _ in range(2):
                         sim = (float(rng.choice(list(fin))), float(rng.choice(list(fin))))
                         up = float(rng.choice(list(pfin)))
-                        l1, f1 = V().detect_bad_channels(x, fs, similarity_threshold=sim, psd_hf_threshold=up)
+                        l1, f1 = call_detect(x, fs, similarity_threshold=sim, psd_hf_threshold=up)
                         res.append((up, sim, l1, f1))
         except Exception as e:
-            ctx.fail("detect_bad_channels raised %r" % (e,), dict(seed_desc, x=x.tolist() if x.size < 4000 else None),
+            ctx.fail(explain(e, "detect_bad_channels"), dict(seed_desc, x=x.tolist() if x.size < 4000 else None),
                      {"op": "rule", "kind": "exception"})
             continue
         for (up, sim, lab, feats) in res:
@@ -643,7 +803,7 @@ def part_rule(ctx, st, model):
         try:
             with warnings.catch_warnings():
                 warnings.simplefilter("ignore")
-                return V().detect_bad_channels(x, fs, **kw)
+                return call_detect(x, fs, **kw)
         finally:
             _ss.medfilt = orig
 
@@ -670,7 +830,7 @@ def part_rule(ctx, st, model):
         try:
             lab, feats = steered(x, fs, np.array(hf_des), np.array(tr_des), **kw)
         except Exception as e:
-            ctx.fail("detect_bad_channels raised %r" % (e,), seed_desc, {"op": "rule", "kind": "exception"})
+            ctx.fail(explain(e, "detect_bad_channels"), seed_desc, {"op": "rule", "kind": "exception"})
             continue
         handle(nc, fs, seed_desc, kw.get("psd_hf_threshold"), kw.get("similarity_threshold", (-0.5, 1)), lab, feats, True)
     common.correspondence(ctx, PROP, HEADER, inputs, outs, lambda i: descs[i], n_kernel=16, shard=8)
@@ -775,9 +935,9 @@ def part_mode(ctx, st, model):
                 voltage.detect_bad_channels = stub
                 d = {"op": "mode", "nc": nc, "nsync": nsync, "ns": ns, "n_batches": nb, "batches": batches}
                 try:
-                    flags = np.asarray(voltage.detect_bad_channels_cbin(sr, n_batches=nb))
+                    flags = call_cbin(sr, nc, n_batches=nb)
                 except Exception as e:
-                    ctx.fail("detect_bad_channels_cbin raised %r" % (e,), d, {"op": "mode", "kind": "exception"})
+                    ctx.fail(explain(e, "detect_bad_channels_cbin"), d, {"op": "mode", "kind": "exception"})
                     continue
                 finally:
                     voltage.detect_bad_channels = orig
@@ -831,9 +991,9 @@ def part_mode(ctx, st, model):
             try:
                 with warnings.catch_warnings():
                     warnings.simplefilter("ignore")
-                    flags = np.asarray(voltage.detect_bad_channels_cbin(sr, n_batches=nb))
+                    flags = call_cbin(sr, nc, n_batches=nb)
             except Exception as e:
-                ctx.fail("detect_bad_channels_cbin raised %r" % (e,), d, {"op": "mode", "kind": "exception"})
+                ctx.fail(explain(e, "detect_bad_channels_cbin"), d, {"op": "mode", "kind": "exception"})
                 continue
             finally:
                 voltage.detect_bad_channels = orig
@@ -841,15 +1001,20 @@ def part_mode(ctx, st, model):
             dur = 0.3
             ok_b = len(seen) == nb
             per_batch = []
-            for k, t0 in enumerate(np.linspace(0, ns / fs - dur, nb)):
-                a, b = int(t0 * fs), int((t0 + dur) * fs)
-                ref = sr[a:b, :nc].T
-                with warnings.catch_warnings():
-                    warnings.simplefilter("ignore")
-                    lk, _ = orig(ref, fs=fs)
-                per_batch.append([int(v) for v in lk])
-                if ok_b and not (seen[k][0].shape == ref.shape and np.array_equal(seen[k][0], ref)):
-                    ok_b = False
+            try:
+                for k, t0 in enumerate(np.linspace(0, ns / fs - dur, nb)):
+                    a, b = int(t0 * fs), int((t0 + dur) * fs)
+                    ref = sr[a:b, :nc].T
+                    with warnings.catch_warnings():
+                        warnings.simplefilter("ignore")
+                        lk, _ = call_detect(ref, fs, fn=orig)
+                    per_batch.append([int(v) for v in lk])
+                    if ok_b and not (seen[k][0].shape == ref.shape and np.array_equal(seen[k][0], ref)):
+                        ok_b = False
+            except Exception as e:
+                ctx.fail("detect_bad_channels raised %r on a batch of the file" % (e,), d,
+                         {"op": "mode", "kind": "exception"})
+                continue
             if not ok_b:
                 ctx.fail("batches are not the n_batches evenly spaced 0.3 s excerpts of the data channels", d,
                          {"op": "mode", "kind": "batches"})
@@ -910,13 +1075,13 @@ def part_mode(ctx, st, model):
                     sr = spikeglx.Reader(fbin)
                     per_batch = []
                     for t0 in np.linspace(0, ns / fs - 0.3, nb):
-                        lk, _ = voltage.detect_bad_channels(sr[int(t0 * fs):int((t0 + 0.3) * fs), :nc].T, fs=fs)
+                        lk, _ = call_detect(sr[int(t0 * fs):int((t0 + 0.3) * fs), :nc].T, fs)
                         per_batch.append([int(v) for v in lk])
                     sr.close()
                     want = [np_mode([b[c] for b in per_batch]) for c in range(nc)]
                     got = {}
                     for how, arg in (("path", fbin), ("str", str(fbin)), ("Reader", spikeglx.Reader(fbin))):
-                        got[how] = [int(v) for v in np.asarray(voltage.detect_bad_channels_cbin(arg, n_batches=nb)).reshape(-1)]
+                        got[how] = [int(v) for v in call_cbin(arg, nc, n_batches=nb)]
                         if how == "Reader":
                             arg.close()
             except Exception as e:
@@ -964,9 +1129,9 @@ def part_detect(ctx, st):
         try:
             with warnings.catch_warnings():
                 warnings.simplefilter("ignore")
-                lab, f = V().detect_bad_channels(x, fs)
+                lab, f = call_detect(x, fs)
         except Exception as e:
-            ctx.fail("detect_bad_channels raised %r" % (e,), d, dict(tags, kind="exception"))
+            ctx.fail(explain(e, "detect_bad_channels"), d, dict(tags, kind="exception"))
             return
         st.evals += 1
         got = {int(i): int(lab[i]) for i in np.flatnonzero(lab)}
@@ -997,7 +1162,7 @@ def part_detect(ctx, st):
         if ctx.thorough():      # every position for the first seed, every 4th (and both ends) for the others
             pos = list(range(nc)) if seed == seeds[0] else sorted(set(range(0, nc, 4)) | {1, nc - 2, nc - 1})
         else:
-            pos = sorted({0, 1, 2, 5, 6, 190, 377, 378, 381, 382, 383} | {rng.randrange(nc) for _ in range(5)})
+            pos = sorted({0, 1, 2, 6, 190, 378, 382, 383} | {rng.randrange(nc) for _ in range(3)})
         for p in pos:
             where = "probe_end" if p in (0, nc - 1) else "inside"
             x = x0.copy()
@@ -1096,15 +1261,24 @@ def check_constants(ctx):
 
 
 def run(ctx):
-    common.proof_obligations(ctx, whitelist=[])
+    common.proof_obligations(ctx, whitelist=REAL_AXIOMS, modules=("Props", "PropsReal"))
+    for name, ax in ctx.theorems.items():     # only the two real-number theorems may depend on axioms
+        if ax != "Closed under the global context" and name not in ("C15_reals_weight_by_distance",
+                                                                    "C15_isolated_on_headers_reals"):
+            ctx.broken_proofs.append({"theorem": name, "why": "depends on axioms: %s" % ax})
     check_constants(ctx)
     st = Stats()
     model = common.Extracted(PROP)
-    part_interp(ctx, st, model)
-    part_rule(ctx, st, model)
-    part_mode(ctx, st, model)
-    part_detrend(ctx, st)
-    part_detect(ctx, st)
+    for name, part, args in (("interp", part_interp, (ctx, st, model)), ("rule", part_rule, (ctx, st, model)),
+                             ("mode", part_mode, (ctx, st, model)), ("detrend", part_detrend, (ctx, st)),
+                             ("detect", part_detect, (ctx, st))):
+        try:
+            part(*args)
+        except Exception as e:     # last line of defence: an observation the harness cannot even canonicalise
+            import traceback
+            ctx.disagree("the %s part of the check could not interpret the implementation's behaviour: %r"
+                         % (name, e), {"op": "harness-" + name, "traceback": traceback.format_exc()[-1500:]},
+                         {"op": name})
     return common.finish(
         ctx, TRUSTED,
         rule="interp: every label vector over {0,1,2,3} on probes of 1..5 (quick) / 1..7 (thorough) channels in up to "
@@ -1196,7 +1370,7 @@ def replay(ctx, data):
             k = inp["top_block"]
             x[nc - k:] = rs.standard_normal((k, ns)) * 5e-6
             expect.update({i: 3 for i in range(nc - k, nc)})
-        lab, f = V().detect_bad_channels(x, fs)
+        lab, f = call_detect(x, fs)
         got = {int(i): int(lab[i]) for i in np.flatnonzero(lab)}
         print("fault:", {k: v for k, v in inp.items() if k not in ("expected", "got")})
         print("expected labels:", expect)
